@@ -467,6 +467,12 @@ pub fn get_best_move_until_stop(
         let Some((best_move, best_score, is_only_move)) =
             get_best_move_entry(game.clone(), continue_running, depth, table, &mut history)
         else {
+            // Stopped before the first iteration completed: still answer with a legal move
+            if found_move.is_none() {
+                let mut moves = ArrayVec::new();
+                game.clone().get_moves(&mut moves, true);
+                found_move = moves.first().copied();
+            }
             return found_move;
         };
 
